@@ -59,6 +59,15 @@ Theorem C13_reopen_appends : forall cfg cfg' rs c rs',
 Proof. exact reopen_appends. Qed.
 Print Assumptions C13_reopen_appends.
 
+(** the positions AppendRecords reports depend on the payload lengths only *)
+Theorem C13_placement_by_length : forall rs w,
+  snd (append_all w rs) = fst (place (w_segsize w) (w_id w) (blen (w_act w)) (map (fun r => blen (snd r)) rs)) /\
+  (let w' := fst (append_all w rs) in
+   (w_id w', blen (w_act w')) = snd (place (w_segsize w) (w_id w) (blen (w_act w)) (map (fun r => blen (snd r)) rs))
+   /\ w_segsize w' = w_segsize w).
+Proof. exact place_spec. Qed.
+Print Assumptions C13_placement_by_length.
+
 (** non-vacuity: two records, the second torn by a cut at byte 15 *)
 Theorem C13_example :
   let rs := [(x00, [x61; x62]); (x01, [x63])] in
